@@ -358,7 +358,7 @@ def exitFinish (cfg : ECfg) (s : ESt) (f f1 : EFrame) (rest : List EFrame) (time
     (o : Obs) : ESt :=
   let s1 := watchStep cfg s f1.b rest.length o
   let s2 := { s1 with frames := f1 :: rest }
-  if (f.b.endT - f.b.start > timeFilter && (!cfg.base.callerMode || f.b.caller)) || f.b.written || f.b.trace then
+  if (durOk cfg.base (f.b.endT - f.b.start) timeFilter && (!cfg.base.callerMode || f.b.caller)) || f.b.written || f.b.trace then
     s2.recorded (recordTraceE cfg retv (f1 :: rest) s1.pend)
   else if !s1.pend.isEmpty then
     if hasAsync s1.pend then s2.recorded (recordTraceE cfg retv (f1 :: rest) s1.pend)
